@@ -157,7 +157,7 @@ func runCtlScenario(w *ndWriter, seed int64, variant string, idx int) bool {
 		}
 	case "listfail":
 		failAt = rng.Intn(4)
-		failKind = []string{"error", "nil", "notlist", "nonobject", "ctxerr", "nometa", "nonobject-mid"}[rng.Intn(7)]
+		failKind = []string{"error", "nil", "notlist", "nonobject", "ctxerr", "nometa", "nonobject-mid", "status"}[rng.Intn(8)]
 		for i := 0; i <= failAt; i++ {
 			a := ListAct{}
 			if i == failAt {
@@ -228,8 +228,19 @@ func runCtlScenario(w *ndWriter, seed int64, variant string, idx int) bool {
 	if variant == "watch" || variant == "timing" || variant == "relist" || variant == "shutdown" {
 		realFilter = slowFilter(cf, &slowNow)
 	}
-	b := kcache.NewBuilder().Context(ctx).Log(newLog(pert)).Client(srv).Filter(tr.RegisterFilter(realFilter, ctlFilter))
-	b.Lister().RefreshPeriod(period)
+	// the builder's setters commute: the order in which an application calls them must not matter
+	b := kcache.NewBuilder()
+	setters := []func(){
+		func() { b.Context(ctx) },
+		func() { b.Log(newLog(pert)) },
+		func() { b.Client(srv) },
+		func() { b.Filter(tr.RegisterFilter(realFilter, ctlFilter)) },
+		func() { b.Lister().RefreshPeriod(period) },
+	}
+	rng.Shuffle(len(setters), func(i, j int) { setters[i], setters[j] = setters[j], setters[i] })
+	for _, set := range setters {
+		set()
+	}
 	ctl, err := b.Create()
 	if err != nil {
 		fmt.Fprintln(os.Stderr, "create:", err)
